@@ -1032,6 +1032,30 @@ func (x *seqExec) doGC(op Op) {
 	if x.plan.Prop == "C18" || x.plan.Prop == "C03" {
 		x.checkReclaimed(op, b, begin, end, before, bdir)
 	}
+	if x.viol == nil && x.plan.Prop == "C18" && op.ID%2 == 0 {
+		// running the same pass again releases nothing
+		n2 := g.W.NumTasks()
+		g.W.Advance(2 * time.Second)
+		g.W.TagNext = "gc"
+		_, _, err2 := g.H.GC(b, begin, end, op.GCDays, op.Merge, false)
+		g.W.TagNext = ""
+		if err2 == nil {
+			if !g.W.WaitCondTimeout("gc2-done", 2*time.Hour, func() bool { return g.W.TasksDone("store.gcMgr.gc", n2) }) {
+				x.fail("R-gc-hang", fmt.Sprintf("second %s did not finish", op))
+				return
+			}
+			h2 := g.H.VerifGCHistory(b)
+			if len(h2) > 0 {
+				st := h2[len(h2)-1]
+				if st.NumReleased != 0 || st.SizeReleased != 0 {
+					x.failSub("R-gc-second-pass-released", "", fmt.Sprintf("%s resolved to [%d,%d]; the same request again released %d records / %d bytes", op, begin, end, st.NumReleased, st.SizeReleased))
+					return
+				}
+				x.out.probe("gc-second-pass-released-nothing")
+			}
+			x.verifyAll(fmt.Sprintf("after-second-gc[%d,%d]", begin, end), false)
+		}
+	}
 }
 
 type dataSnap map[string][]byte
